@@ -1,6 +1,6 @@
 """Correspondence families: each returns a list of protocol operations (see Driver.lean)."""
 import json
-from gen import Vocab, shuffled, FREE_POOL, JUNK
+from gen import Vocab, shuffled, FREE_POOL, JUNK, SearchGen, universe
 
 
 def fam_resolver(v, n):
@@ -201,7 +201,206 @@ def fam_confutil(v, n):
     return ops
 
 
+def path_labels(v, config):
+    return [l for l, _ in v.paths[config]["templates"]]
+
+
+def concrete_path_sids(v, n, backed_only=True):
+    """concrete typed sids of types having a path template (values may need path mapping)"""
+    rng = v.rng
+    cfg = sorted(v.paths.keys())[0]
+    labels = [l for l in path_labels(v, cfg) if l in v.tdict] if backed_only else v.labels
+    out = []
+    for _ in range(n):
+        label = rng.choice(labels)
+        fields = [(k, v.value((k, r), concrete_only=True)) for k, r in v.tdict[label]]
+        out.append((label, "/".join(val for _, val in fields), fields))
+    return out
+
+
+def mutate_path(v, p):
+    """one mutation of the C06 grammar applied to a valid path"""
+    rng = v.rng
+    comps = p.split("/")
+    kind = rng.randrange(14)
+    if kind == 0 and len(comps) > 3:      # substitute a directory value
+        i = rng.randrange(2, len(comps))
+        comps[i] = rng.choice([v.segment(), v.near_miss(comps[i])])
+    elif kind == 1:                        # drop trailing components
+        comps = comps[:-rng.randint(1, 2)]
+    elif kind == 2:                        # add trailing components
+        comps = comps + [rng.choice([v.segment(), "OUTPUT", "x.ma", comps[-1]]) for _ in range(rng.randint(1, 2))]
+    elif kind == 3:                        # desynchronise a repeated field inside the file name
+        name = comps[-1]
+        toks = name.replace(".", "_").split("_")
+        if len(toks) > 1:
+            i = rng.randrange(len(toks))
+            old = toks[i]
+            new = rng.choice([v.segment(), v.near_miss(old), "x"])
+            name = name.replace(old, new, 1)
+        comps[-1] = name
+    elif kind == 4:                        # change a separator
+        comps[-1] = comps[-1].replace("_", rng.choice(["-", "__", ".", ""]), 1)
+    elif kind == 5:                        # the extension dot
+        if "." in comps[-1]:
+            i = comps[-1].rindex(".")
+            comps[-1] = comps[-1][:i] + rng.choice(["X", "/", "_", "..", ""]) + comps[-1][i + 1:]
+    elif kind == 6:                        # a fixed folder
+        for i, cpt in enumerate(comps):
+            if cpt in ("PROD", "ASSETS", "SHOTS", "OUTPUT", "EXPORT", "PROJECTS") and rng.random() < 0.5:
+                comps[i] = rng.choice(["prod", "ASSET", "X", "OUTPUTS", ""])
+                break
+    elif kind == 7:
+        return p + rng.choice(["\n", "/", "/.", " ", "\n\n"]).encode().decode("unicode_escape")
+    elif kind == 8:                        # switch root between configurations
+        return p.replace("/LOCAL/", "/SERVER/") if "/LOCAL/" in p else p.replace("/SERVER/", "/LOCAL/")
+    elif kind == 9:
+        return p.replace("/", "//", 1) if rng.random() < 0.5 else p.replace("/R/", "/R/./", 1)
+    elif kind == 10 and len(comps) > 4:   # duplicate a component
+        i = rng.randrange(3, len(comps))
+        comps.insert(i, comps[i])
+    elif kind == 11:                       # substitute a token of the file name by a valid word of another key
+        name = comps[-1]
+        toks = name.split("_")
+        if len(toks) > 1:
+            i = rng.randrange(len(toks))
+            k = rng.choice(list(v.closed.keys()))
+            toks[i] = rng.choice(v.closed[k])
+            comps[-1] = "_".join(toks)
+    elif kind == 12:
+        return rng.choice(["", "/", "relative/path", "None", "/R", p.lower(), p.upper()])
+    else:
+        i = rng.randrange(len(comps))
+        comps[i] = comps[i][::-1] if rng.random() < 0.5 else comps[i] + "x"
+    return "/".join(comps)
+
+
+def fam_paths(v, n, model):
+    """C05 / C06: Sid -> path -> Sid in every configuration, and mutated / foreign paths"""
+    rng = v.rng
+    configs = sorted(v.paths.keys())
+    sids = concrete_path_sids(v, n)
+    # a few search sids, untyped and path-less ones as well
+    extra = [v.typed_sid(search=0.4) for _ in range(max(5, n // 10))]
+    ops = []
+    ask = []
+    for label, s, fields in sids:
+        for cfg in configs:
+            ask.append({"op": "sid_call", "from": {"s": s}, "m": "path", "config": cfg})
+    answers = model(ask)
+    k = 0
+    for label, s, fields in sids:
+        for cfg in configs:
+            a = answers[k]; k += 1
+            ops.append({"op": "sid_call", "from": {"s": s}, "m": "path", "config": cfg})
+            p = a.get("ok")
+            if not p:
+                continue
+            ops.append({"op": "sid", "path": p, "config": cfg})
+            if rng.random() < 0.3:
+                ops.append({"op": "path_to_dict", "path": p, "config": cfg})
+            if rng.random() < 0.2:
+                ops.append({"op": "resolve_first", "r": cfg, "s": p})
+            for _ in range(2):
+                mp = mutate_path(v, p)
+                ops.append({"op": "sid", "path": mp, "config": rng.choice([cfg, cfg, None] + configs)})
+                if rng.random() < 0.15:
+                    ops.append({"op": "resolve_all", "r": cfg, "s": mp})
+        if rng.random() < 0.3:
+            ops.append({"op": "sid_call", "from": {"s": s}, "m": "path"})
+            ops.append({"op": "sid_call", "from": {"s": label + ":" + s}, "m": "path", "config": rng.choice(configs)})
+    for label, s, fields in extra:
+        ops.append({"op": "sid_call", "from": {"s": s}, "m": "path", "config": rng.choice(configs)})
+    for s in ["junk", "", "hamlet/a/char//model", "hamlet/a/char/./model", "hamlet/a/char/x/model/v001/w", "hamlet/a"]:
+        ops.append({"op": "sid_call", "from": {"s": s}, "m": "path", "config": configs[0]})
+    return ops
+
+
+def fam_unfold(v, n):
+    """C07: each unfolder and the pipeline"""
+    rng = v.rng
+    sg = SearchGen(v)
+    ops = []
+    for _ in range(n):
+        s = sg.search(allow_gt=rng.random() < 0.3)
+        x = rng.random()
+        flags = {}
+        if x < 0.25:
+            flags = {"u": rng.random() < 0.5, "x": rng.random() < 0.5}
+            if rng.random() < 0.5:
+                flags["positional"] = True
+        ops.append({"op": "unfold_search", "s": s, **flags})
+        y = rng.random()
+        if y < 0.08:
+            ops.append({"op": "extensions", "s": s})
+        elif y < 0.16:
+            ops.append({"op": "or_op", "s": s})
+        elif y < 0.22:
+            ops.append({"op": "or_on_path", "s": s.split("?")[0]})
+        elif y < 0.28 and "?" in s:
+            ops.append({"op": "or_on_query", "q": s.split("?", 1)[1]})
+        elif y < 0.36 and "," not in s:
+            ops.append({"op": "expand", "s": s, "x": rng.random() < 0.3})
+        elif y < 0.42 and "," not in s and "**" not in s:
+            ops.append({"op": "simple_typing", "s": s})
+        elif y < 0.47:
+            ops.append({"op": "handle_extension", "s": s.split("?")[0].split("/")[-1]})
+        elif y < 0.52:
+            label, st, _ = v.typed_sid(search=0.5)
+            ops.append({"op": "type_narrow", "from": {"s": rng.choice([st, label + ":" + st, st + "?foo=bar"])}})
+    for s in ["bla?foo=bar", "hamlet/*/*?type=s", "x:y:z", "hamlet/a/**", "hamlet/**", "hamlet/s/**/ma", "", "hamlet/a/char/**/maya",
+              "hamlet/a,s/*", "hamlet/a/char/x/model/v001/w/maya", "hamlet/a/char/x/**/movie?state=p", "hamlet/s/sq001/**/cache"]:
+        ops.append({"op": "unfold_search", "s": s})
+        ops.append({"op": "unfold_search", "s": s, "x": True})
+    ops.append({"op": "extrapolate", "l": ["a/b/c", "a/b/d", "a/x", "", "/a", "a//b"]})
+    return ops
+
+
+def fam_listfind(v, n):
+    """C08 / C09 / C10 / C12: FindInList over generated universes"""
+    rng = v.rng
+    sg = SearchGen(v)
+    ops = []
+    nu = max(1, n // 12)
+    for _ in range(nu):
+        L, leaves = universe(v)
+        flags = {}
+        x = rng.random()
+        if x < 0.15:
+            flags["x"] = True
+        elif x < 0.25:
+            flags["ps"] = True
+        elif x < 0.3:
+            flags["st"] = True
+            L = [rng.choice([" ", ""]) + s for s in L]
+        for _ in range(12):
+            base = rng.choice(leaves) if rng.random() < 0.8 else None
+            if base is not None and rng.random() < 0.3:
+                label, fields = base
+                i = rng.randint(1, len(fields))
+                pl = [l for l, ks in v.templates if [k for k, _ in ks] == [k for k, _ in fields[:i]]]
+                base = (pl[0], fields[:i]) if pl else base
+            s = sg.search(base=base, allow_gt=rng.random() < 0.35, malformed=0.03)
+            m = rng.choice(["find", "find", "find", "find_one", "exists"])
+            ops.append({"op": "find_list", "l": L, "s": s, "m": m, **flags})
+            if rng.random() < 0.1:
+                item = rng.choice(L)
+                ops.append({"op": "sid_call", "from": {"s": item}, "m": "match", "search": s})
+            if rng.random() < 0.08:
+                ops.append({"op": "glob_match", "pat": s.split("?")[0], "item": rng.choice(L)})
+        # concrete lookups: present and absent
+        ops.append({"op": "find_list", "l": L, "s": rng.choice(L), "m": "find", **flags})
+        ops.append({"op": "find_list", "l": L, "s": v.typed_sid(search=0)[1], "m": "find", **flags})
+    ops.append({"op": "find_list", "l": ["hamlet/a/char/a/model/v001/w/ma", "hamlet/a/char/a-b/model/v001/w/ma"], "s": "hamlet/a/char/>/model/*/w/*", "m": "find"})
+    ops.append({"op": "find_list", "l": ["hamlet/a/char/x/model/v001/w/ma", "hamlet/a/char/x/model/v001/w/mb"], "s": "hamlet/a/char/x/model/v001/w/maya", "m": "find"})
+    ops.append({"op": "find_list", "l": ["hamlet/a/char/[x]"], "s": "hamlet/a/char/[x]", "m": "find"})
+    return ops
+
+
 FAMILIES = {
+    "unfold": fam_unfold,
+    "listfind": fam_listfind,
+    "paths": fam_paths,
     "resolver": fam_resolver,
     "sid_strings": fam_sid_strings,
     "sid_forms": fam_sid_forms,
